@@ -37,7 +37,7 @@ import (
 type c17LLIn struct {
 	Init uint32    `json:"init"`
 	M    int64     `json:"M"`
-	Ops  [][]int64 `json:"ops"` // [0] Accept | [1] Offer conn | [2] Offer permanent error | [3,i] Close conn i | [4,n] SetMaxConnection(n) | [5] Offer temporary error (net.Error)
+	Ops  [][]int64 `json:"ops"` // [0] Accept | [1] Offer conn | [2] Offer permanent error | [3,i] Close conn i, [3,i,1] Close conn i whose inner Close reports an error | [4,n] SetMaxConnection(n) | [5] Offer temporary error (net.Error)
 }
 
 type c17LLStep struct {
@@ -63,13 +63,20 @@ func (c17Addr) Network() string { return "c17" }
 func (c17Addr) String() string  { return "c17" }
 
 type c17Conn struct {
-	id     int64
-	closes int64
+	id        int64
+	closes    int64
+	failClose int32 // 1: Close really closes but reports an error (e.g. ENOTCONN after a peer reset)
 }
 
-func (c *c17Conn) Read(b []byte) (int, error)         { return 0, errors.New("c17: eof") }
-func (c *c17Conn) Write(b []byte) (int, error)        { return len(b), nil }
-func (c *c17Conn) Close() error                       { atomic.AddInt64(&c.closes, 1); return nil }
+func (c *c17Conn) Read(b []byte) (int, error)  { return 0, errors.New("c17: eof") }
+func (c *c17Conn) Write(b []byte) (int, error) { return len(b), nil }
+func (c *c17Conn) Close() error {
+	atomic.AddInt64(&c.closes, 1)
+	if atomic.LoadInt32(&c.failClose) == 1 {
+		return errors.New("c17: close reported an error")
+	}
+	return nil
+}
 func (c *c17Conn) LocalAddr() net.Addr                { return c17Addr{} }
 func (c *c17Conn) RemoteAddr() net.Addr               { return c17Addr{} }
 func (c *c17Conn) SetDeadline(t time.Time) error      { return nil }
@@ -312,6 +319,12 @@ func c17LLExec(in c17LLIn) (obs c17LLObs) {
 			}
 			r.mu.Unlock()
 			if c != nil {
+				if len(op) >= 3 && op[2] == 1 {
+					// the wrapped connection's Close reports an error: the permit must come back all the same
+					atomic.StoreInt32(&r.inners[op[1]].failClose, 1)
+				} else {
+					atomic.StoreInt32(&r.inners[op[1]].failClose, 0)
+				}
 				func() {
 					defer func() {
 						if rec := recover(); rec != nil {
@@ -410,9 +423,13 @@ func c17LLGen(r *vfRand, adv bool) c17LLIn {
 		case x < 16:
 			// close: mostly an existing connection, sometimes twice, sometimes one never accepted
 			id := int64(r.Intn(int(offered) + 1))
-			in.Ops = append(in.Ops, []int64{3, id})
-			if r.Chance(1, 5) {
+			if r.Chance(1, 4) {
+				in.Ops = append(in.Ops, []int64{3, id, 1})
+			} else {
 				in.Ops = append(in.Ops, []int64{3, id})
+			}
+			if r.Chance(1, 5) {
+				in.Ops = append(in.Ops, []int64{3, id, int64(r.Intn(2))})
 			}
 		default:
 			var n int64
@@ -443,19 +460,19 @@ func c17LLGen(r *vfRand, adv bool) c17LLIn {
 	return in
 }
 
-
 // ---- storm (thorough): concurrent accepts and closes under an always-on counter ----
 
 type c17StormIn struct {
-	Caps     []int64 `json:"caps"`     // capacity of each phase (>= 1); changed only at quiescent points
-	Workers  int     `json:"workers"`  // goroutines closing accepted connections
-	PerPhase int     `json:"perPhase"` // connections offered per phase
-	Seed     int     `json:"seed"`
-	TempErrs bool    `json:"tempErrs"` // the inner listener fails transiently now and then
+	Caps      []int64 `json:"caps"`     // capacity of each phase (>= 1); changed only at quiescent points
+	Workers   int     `json:"workers"`  // goroutines closing accepted connections
+	PerPhase  int     `json:"perPhase"` // connections offered per phase
+	Seed      int     `json:"seed"`
+	TempErrs  bool    `json:"tempErrs"`  // the inner listener fails transiently now and then
+	CloseErrs bool    `json:"closeErrs"` // some connections report an error from Close
 }
 
 type c17StormObs struct {
-	Max       []int64 `json:"max"`       // per phase: maximum number of simultaneously open accepted connections
+	Max       []int64 `json:"max"` // per phase: maximum number of simultaneously open accepted connections
 	Accepted  int64   `json:"accepted"`
 	Closed    int64   `json:"closed"`
 	Panics    int64   `json:"panics"`
@@ -561,12 +578,20 @@ func c17StormExec(in c17StormIn) (obs c17StormObs) {
 					obs.Desync = true
 				}
 			}
+			ic := &c17Conn{id: id}
+			if in.CloseErrs && er.Chance(1, 5) {
+				ic.failClose = 1
+			}
 			select {
-			case inner.ch <- c17Item{conn: &c17Conn{id: id}}:
+			case inner.ch <- c17Item{conn: ic}:
 			case <-time.After(time.Duration(atomic.LoadInt64(&c17LLTimeout))):
 				obs.Desync = true
+				atomic.StoreInt64(&c17LLTimeout, int64(100*time.Millisecond))
 			}
 			id++
+			if obs.Desync {
+				break // the accept loop is stuck: no point in offering the rest
+			}
 		}
 		total += int64(in.PerPhase)
 		// quiescent point: everything offered so far has been accepted and closed
@@ -624,7 +649,7 @@ func TestVerifC17LL(t *testing.T) {
 	if vfTier() == "thorough" {
 		for i := 0; i < 24; i++ {
 			r := root.Fork(200000 + i)
-			in := c17StormIn{Workers: r.PickInt(2, 4, 8, 16, 32), PerPhase: r.PickInt(200, 500, 1000), Seed: r.Intn(1 << 30), TempErrs: i%2 == 1}
+			in := c17StormIn{Workers: r.PickInt(2, 4, 8, 16, 32), PerPhase: r.PickInt(200, 500, 1000), Seed: r.Intn(1 << 30), TempErrs: i%2 == 1, CloseErrs: i%3 != 0}
 			for p := r.Range(1, 4); p > 0; p-- {
 				in.Caps = append(in.Caps, int64(r.PickInt(1, 2, 3, 5, 8, 16)))
 			}
